@@ -95,7 +95,7 @@ class C18(Prop):
             "is patched; distinct by pair hash")
     ASSUMPTIONS = ["keys distinct per object (case-sensitively); a NULL generated patch means 'no change'"]
     REQUIRED_CLASSES = ["apply", "generate", "nested_object_patch", "case_variant_keys_nested", "null_member_in_patch", "non_object_patch", "non_object_target",
-                        "generated_null_patch", "deep_objects"]
+                        "generated_null_patch", "deep_objects", "patch_value_too_deep_to_copy", "second_generation_after_edits"]
 
     def budget(self, tier):
         return {"workers": 14, "examples": 1500 if tier == "quick" else 20000}
@@ -110,11 +110,16 @@ class C18(Prop):
                                        "other": docs,
                                        "edits": st.lists(st.sampled_from(EDITS), max_size=4), "independent": gens.chance(5),
                                        "rseed": st.integers(0, 2 ** 31)})
-        return st.tuples(gens.chance(40), st.one_of(apply_c, gen_c), deep_c).map(lambda t: t[2] if t[0] else t[1])
+        # a patch value nested deeper than cJSON_Duplicate copies (CJSON_CIRCULAR_LIMIT): the merge may be refused, cleanly
+        toodeep = st.fixed_dictionaries({"kind": st.just("toodeep"), "rel": st.sampled_from([-2, 0, 1, 2, 5, 500]), "pattern": st.integers(0, 7),
+                                         "where": st.sampled_from(["top", "member", "nested", "nested_in_existing", "second_member"]), "cs": st.booleans()})
+        return gens.weighted((78, st.one_of(apply_c, gen_c)), (2, deep_c), (1, toodeep))
 
     def run_case(self, lib, case, stats):
         if case["kind"] == "deep":
             self.run_deep(lib, case, stats)
+        elif case["kind"] == "toodeep":
+            self.run_toodeep(lib, case, stats)
         elif case["kind"] == "apply":
             self.run_apply(lib, case, stats)
         else:
@@ -124,6 +129,38 @@ class C18(Prop):
         s = lib.stats()
         if s.foreign_free or s.cross_free:
             raise Violation("foreign or double free", key="free")
+
+    def run_toodeep(self, lib, case, stats):
+        n = lib.circular_limit + case["rel"]
+        chain = lib.shim_make_chain(n, case["pattern"], 1, 0)
+        target = printing.build_tree(lib, ["O", [[b"k", ["O", [[b"a", ["N", 1.0]], [b"b", ["A", [["N", 1.0], ["N", 2.0]]]]]]], [b"other", ["S", b"s"]], [b"z", ["O", []]]]])
+        where = case["where"]
+        if where == "top":
+            patch = chain
+        else:
+            patch = lib.cJSON_CreateObject()
+            if where == "member":
+                lib.cJSON_AddItemToObject(patch, b"new", chain)
+            elif where == "second_member":
+                lib.cJSON_AddItemToObject(patch, b"other", lib.cJSON_CreateNull())
+                lib.cJSON_AddItemToObject(patch, b"z", lib.cJSON_CreateString(b"first"))
+                lib.cJSON_AddItemToObject(patch, b"k", chain)
+            else:
+                inner = lib.cJSON_CreateObject()
+                lib.cJSON_AddItemToObject(inner, b"a", lib.cJSON_CreateNumber(2.0))
+                lib.cJSON_AddItemToObject(inner, b"x", chain)
+                lib.cJSON_AddItemToObject(inner, b"y", lib.cJSON_CreateTrue())
+                lib.cJSON_AddItemToObject(patch, b"k" if where == "nested_in_existing" else b"fresh", inner)
+        stats.cls("patch_value_too_deep_to_copy")
+        stats.nontriv(["toodeep", n, case["pattern"], where, case["cs"]], dict(case))
+        res = (lib.cJSONUtils_MergePatchCaseSensitive if case["cs"] else lib.cJSONUtils_MergePatch)(target, patch)
+        stats.inner += 1
+        # (the target now belongs to the call: it comes back as the result or has been released)
+        if res:
+            # whether the call copies such a value or refuses it is C11's matter (and open at the limit itself); here: no memory error
+            lib.cJSON_Delete(res)
+        lib.cJSON_Delete(patch)
+        # leak / double release are judged by the caller (ledger, sanitizer)
 
     def run_deep(self, lib, case, stats):
         """object chains nested about as deep as the parser's limit (built through the API); the difference sits at the bottom"""
